@@ -136,12 +136,13 @@ def gen_trace(rng, nrec, remove_pbc):
                 R.append([sum(m[a] * H[a][k] for a in range(d)) + rng.randint(-H[k][k] // 3, H[k][k] // 3) for k in range(d)])
         Hf = np.array(H, dtype=float) / S
         Rf = np.array(R, dtype=float) / S
-        out = np.asarray(remove_pbc(Rf, Hf, np.array(ppp)))
+        out = np.asarray(remove_pbc(Rf, Hf, np.array(ppp)), dtype=float)
         coef = (Rf - out) @ np.linalg.inv(Hf)
         nint = np.rint(coef)
         for i in range(n):
-            lat = int(np.all(np.abs(coef[i] - nint[i]) <= 1e-7))
-            recs.append({"H": H, "ppp": ppp, "r": R[i], "n": [int(x) for x in nint[i]], "lat": lat})
+            fin = bool(np.all(np.isfinite(coef[i])))
+            lat = int(fin and np.all(np.abs(coef[i] - nint[i]) <= 1e-7))       # a non-finite result is no lattice translation
+            recs.append({"H": H, "ppp": ppp, "r": R[i], "n": [int(x) if fin else 0 for x in nint[i]], "lat": lat})
             ctx.append({"scale": S, "observed": out[i].tolist()})
             if len(recs) >= nrec:
                 break
